@@ -22,6 +22,7 @@ EXPLANATION = (
     "id() in rule code; no RNG on deterministic paths (= C10.R1). Does NOT decide invariance under "
     "splitting/merging ballot weights (arithmetic; condense is C11)."
 )
+EXPLANATION += ' Also decided (prerequisites and later clauses): the weight a ballot carries out of a surplus transfer is an exact product (C03.R5 / R7), hence additive under merging and splitting.'
 ASSUMPTIONS = ["F2: tiebreak_set returns singletons (checked by C10.R4)", "F3: an m=1 selection elects one singleton (C01.R5/C10.R5)",
                "dict equality and frozenset equality ignore insertion order"]
 TRUSTED = ["python set/dict semantics"]
